@@ -254,3 +254,13 @@ Theorem C04_pte_helpers_are_translation :
     go_mm_Page_Address frame = frame_addr frame.
 Proof. exact pte_helpers_are_translation. Qed.
 Print Assumptions C04_pte_helpers_are_translation.
+
+(** PageDirectoryTable.Activate: the two address spaces swap roles, no memory is touched. *)
+Theorem C04_pdt_activate :
+  forall s A T ownA own slot,
+    Inv2 s A T ownA own -> pdts s slot = T ->
+    let s' := pdt_activate slot s in
+    Inv2 s' T A own ownA /\ cr3 s' = frame_addr T /\ slog s' = frame_addr T :: slog s /\
+    (forall f i, ent s' f i = ent s f i) /\ orc s' = orc s /\ flog s' = flog s.
+Proof. exact pdt_activate_spec. Qed.
+Print Assumptions C04_pdt_activate.
